@@ -181,12 +181,13 @@ def library_input(cfg, values):
     if rep == "sympy":
 
         def conv(m):
-            return sympy.Matrix(
-                N,
-                N,
-                lambda i, j: sympy.Integer(int(m[i, j].real))
-                + sympy.I * sympy.Integer(int(m[i, j].imag)),
-            )
+            from fractions import Fraction
+
+            def rat(x):
+                f = Fraction(float(x))
+                return sympy.Rational(f.numerator, f.denominator)
+
+            return sympy.Matrix(N, N, lambda i, j: rat(m[i, j].real) + sympy.I * rat(m[i, j].imag))
 
         h0 = sympy.diag(*[sympy.Integer(e[0]) + sympy.I * sympy.Integer(e[1]) for e in E])
     elif rep == "dense":
@@ -300,9 +301,15 @@ def run_library(cfg, seed, request_order="asc"):
     """Run block_diagonalize on cfg; return (values, dict name -> {order: M}) for all orders
     with total <= cfg['total'].  Raises LibraryRejected for documented rejections; any other
     exception propagates (and is a finding for the caller to report)."""
+    values = gen_values(cfg, seed)
+    return run_library_values(cfg, values, request_order)
+
+
+def run_library_values(cfg, values, request_order="asc"):
+    """Same as run_library but with explicit term values {order: complex ndarray}; cfg['k']
+    must match the order tuples."""
     from pymablock import block_diagonalize
 
-    values = gen_values(cfg, seed)
     Hd, kwargs = library_input(cfg, values)
     try:
         Ht, U, Ui = block_diagonalize(Hd, **kwargs)
